@@ -7,7 +7,10 @@ mod core;
 mod dym;
 mod enc;
 #[rustfmt::skip]
-mod gen_cat;
+#[allow(clippy::all)]
+mod gen_cat {
+    include!(concat!(env!("OUT_DIR"), "/gen_cat.rs"));
+}
 mod kinds;
 mod ov;
 mod scalar;
